@@ -12,8 +12,16 @@ Families: (a) well-formed streams with legal oddities; (b) well-formed prefix +
 one request with exactly one framing/syntax defect from the statement's list +
 a VICTIM request that must never be processed; (c) request targets over all 256
 byte values; (e) constructs where RFC 9110/9112 let a recipient either reject or
-repair (obs-fold, bare CR / LF inside a field value).
+repair (obs-fold, bare CR / LF inside a field value); (l) chunked requests whose
+chunk-size lines carry long valid chunk extensions, sized relative to the limit
+in force, with a pipelined request behind them.
+
+The documented module-level setting twisted.web.http.maxChunkSizeLineLength is a
+per-run knob (default / raised / lowered), set before the channel is built and
+restored in a finally and in cleanup(sim).
 """
+from twisted.web import http as _http
+
 from detsim import net
 from detsim.sim import Violation, StepLimit
 from models import http1
@@ -35,13 +43,141 @@ COMPONENTS = {
 }
 RULE = ("run = one stream from family a (1-4 well-formed pipelined requests: OWS/case oddities, leading zeros, chunk extensions, trailers, bodies that "
         "contain request-like text), b (0-2 well-formed requests, one request with exactly one of 55 framing/syntax defects, then a VICTIM request), "
-        "c (request-target drawn from all byte values) or e (obs-fold / bare CR / bare LF in a value), delivered under a tape-chosen segmentation with "
+        "c (request-target drawn from all byte values), e (obs-fold / bare CR / bare LF in a value) or l (0-1 well-formed requests, one chunked request whose "
+        "chunk-size lines - any of them, the last-chunk line too - carry long valid chunk extensions of a length placed relative to the limit in force: well "
+        "inside it, just under it, between the default and a raised limit, at its edge or beyond it, then a pipelined GET that must be reached), with the "
+        "documented module setting http.maxChunkSizeLineLength drawn per run (default / raised / lowered; lowered only below lines the stream needs), delivered under a tape-chosen segmentation with "
         "each response finished at once or later; one run in twelve keeps delivering after the server's close request (as a TLS transport does); "
         "non-trivial = at least one request was handed to the application or a 400 was written")
 ASSUMPTIONS = ["no verdict on constructs where the RFCs leave the recipient a choice other than those listed in family e (BWS before a chunk extension, "
                "Transfer-Encoding in HTTP/1.0, HTTP/1.x versions above 1.1, 'identity' as sole transfer coding, request-target bytes >= 0x7F)",
-               "requests after a non-persistent request are not generated (a conforming client never sends them)"]
-cleanup = H.cleanup
+               "requests after a non-persistent request are not generated (a conforming client never sends them)",
+               "maxChunkSizeLineLength is documented as the maximum allowable length of the CRLF-terminated chunk-size line: a line that fits including its "
+               "CRLF must be accepted and framed normally; a line one or two bytes longer (the readings with / without the CRLF) or beyond the limit may be "
+               "accepted or answered with 400 (then nothing after it is processed) - the statement sets no size limits"]
+LIMIT_DEFAULT = 1024                 # documented default of twisted.web.http.maxChunkSizeLineLength
+LIMIT_RAISED = [1500, 1100, 2048]
+LIMIT_LOWERED = [700, 256, 64]       # every ordinary chunk-size line of the grammar (size + short extension) is below 32 bytes
+LIMIT_MODES = ["default", "raised", "lowered"]
+_limit_saved = []
+
+
+def _set_limit(value):
+    if not _limit_saved:
+        _limit_saved.append(_http.maxChunkSizeLineLength)
+    _http.maxChunkSizeLineLength = value
+
+
+def _restore_limit():
+    if _limit_saved:
+        _http.maxChunkSizeLineLength = _limit_saved[0]
+
+
+def cleanup(sim):
+    _restore_limit()
+    H.cleanup(sim)
+
+
+def _draw_limit(sim, longest=0):
+    """(mode, value) of the module setting for this run; value 0 of every draw = the default.  `longest` = longest chunk-size line
+    (without CRLF) of an already generated stream: a lowered limit is only chosen where every line still fits with room to spare."""
+    mode = sim.draw_choice(LIMIT_MODES, "limit-mode")
+    if mode == "raised":
+        return mode, sim.draw_choice(LIMIT_RAISED, "limit-raised")
+    if mode == "lowered":
+        fits = [v for v in LIMIT_LOWERED if longest + 2 <= v]
+        if fits:
+            return mode, sim.draw_choice(fits, "limit-lowered")
+    return "default", LIMIT_DEFAULT
+
+
+def _longest_size_line(specs):
+    """Longest chunk-size line (size + extensions, without CRLF) of well-formed generated requests (a plain walk over the chunks)."""
+    longest = 0
+    for s in specs:
+        if s.framing != "chunked":
+            continue
+        w, pos = s.wire, s.bounds[1]
+        while True:
+            eol = w.index(b"\r\n", pos)
+            line = w[pos:eol]
+            longest = max(longest, len(line))
+            n = int(line.split(b";")[0], 16)
+            if n == 0:
+                break
+            pos = eol + 2 + n + 2
+    return longest
+
+
+def _long_ext(sim, n):
+    """A valid chunk-ext production (RFC 9112 s.7.1.1) of exactly n >= 8 bytes."""
+    style = sim.draw_int(0, 3, "extstyle")
+    if style == 0:
+        return b";" + b"e" * (n - 1)                       # one long extension name
+    if style == 1:
+        return b";n=" + b"v" * (n - 3)                     # one long token value
+    if style == 2:
+        return b';q="' + (b"w ;=" * (n // 4 + 1))[:n - 5] + b'"'   # one long quoted value (with ';' and SP inside)
+    k = (n - 2) // 4                                       # many short extensions
+    return b";a=b" * k + b";" + b"x" * (n - 4 * k - 1)
+
+
+# zones of a chunk-size line's length (size + extensions, CRLF not counted) relative to the limit in force.  The setting is documented
+# as the "maximum allowable length of the CRLF-terminated line": a line which fits INCLUDING its CRLF must be accepted; one or two bytes
+# more is a matter of reading (no verdict: reject or accept), and so is anything beyond (the statement is silent on size limits).
+MUST_ZONES = ["inside", "under", "between"]
+LINE_ZONES = ["short", "inside", "under", "between", "edge", "over"]
+
+
+def _zone_length(sim, zone, limit):
+    if zone == "inside":
+        return sim.draw_int(limit // 4, limit - 10, "len-inside")
+    if zone == "under":
+        return limit - 2 - sim.draw_int(0, 3, "len-under")
+    if zone == "between":       # longer than the default limit allows, within a raised one
+        return sim.draw_int(LIMIT_DEFAULT - 2, limit - 2, "len-between")
+    if zone == "edge":
+        return limit - 1 + sim.draw_int(0, 1, "len-edge")
+    return limit + 1 + sim.draw_choice([0, 1, 2, 40, 300], "len-over")
+
+
+LONG_BODIES = [b"hello world", b"hello" + H.SMUGGLE, H.SMUGGLE + b"0\r\n\r\n", b"x"]
+
+
+def _long_line_request(sim, limit):
+    """One well-formed chunked request whose chunk-size lines (any of them, the last-chunk line included) carry long valid extensions.
+    -> (wire, key, zones, bounds)"""
+    body = sim.draw_choice(LONG_BODIES, "lbody")
+    pieces = H.split_pieces(sim, body, 3)
+    zones = []
+    lines = []
+    for i, piece in enumerate(pieces + [b""]):
+        size = sim.draw_choice(H.SIZEFMT, "szf") % len(piece)
+        if i == 0:
+            zone = sim.draw_choice(MUST_ZONES + ["under", "between", "edge", "over"], "zone0")
+        else:
+            zone = sim.draw_choice(["short", "short"] + LINE_ZONES, "zone")
+        if zone == "between" and limit <= LIMIT_DEFAULT:
+            zone = "under"
+        if zone == "short":
+            ext = sim.draw_choice(H.EXTS, "ext")
+        else:
+            ext = _long_ext(sim, _zone_length(sim, zone, limit) - len(size))
+        zones.append(zone)
+        lines.append(size + ext)
+    head = b"POST /long HTTP/1.1\r\nHost: l.test\r\n" + H.header_line(sim, b"Transfer-Encoding", b"chunked") + b"\r\n"
+    w = bytearray(head)
+    bounds = [len(w)]
+    for line, piece in zip(lines, pieces + [b""]):
+        w += line + b"\r\n"
+        bounds.append(len(w))
+        if piece:
+            w += piece + b"\r\n"
+    w += sim.draw_choice([b"", b"X-T: 1\r\n"], "ltrl") + b"\r\n"
+    bounds.append(len(w))
+    key = (b"POST", b"/long", b"HTTP/1.1", http1.header_map([(b"host", b"l.test"), (b"transfer-encoding", b"chunked")]), body)
+    return bytes(w), key, zones, bounds
+
 
 EITHER = ["obs-fold", "obs-fold-tab", "hv-bare-cr", "hv-bare-lf"]
 # both Content-Length and a Transfer-Encoding the server treats as a no-op: listed by the statement ("both Content-Length and Transfer-Encoding")
@@ -70,13 +206,20 @@ def _norm_key(k):
 
 
 def run(sim):
+    try:
+        _run(sim)
+    finally:
+        _restore_limit()
+
+
+def _run(sim):
     # process-global mutable state (header-name cache) must not leak between runs in a warm worker
     try:
         from twisted.web import http_headers as _hh
         _hh._nameEncoder._canonicalHeaderCache.clear()
     except AttributeError:
         pass
-    family = sim.draw_weighted([("a", 5), ("b", 7), ("c", 2), ("e", 1)], "family")
+    family = sim.draw_weighted([("a", 5), ("b", 7), ("c", 2), ("e", 1), ("l", 1)], "family")
     # 1 run out of 12 keeps delivering after the server's close request (precondition of the known after-close-delivery defect)
     after_close = sim.draw_choice([False] * 11 + [True], "deliver-after-close")
     eager = sim.draw_choice([0x4000, 0x4000, 24], "eager")
@@ -84,10 +227,28 @@ def run(sim):
     must400 = False     # after the truth requests: a 400, a close request, nothing else
     either = None       # (key if accepted, follower key) for family e / high target bytes
     kind = family
+    limit_mode = None   # the module setting: drawn first in family l (the stream is sized by it), after the stream in the other families
     if family == "a":
         specs = H.gen_stream(sim, 4, long_ext="under")
         data, bounds = H.stream_bytes(specs)
         truth = [s.key() for s in specs]
+    elif family == "l":
+        limit_mode, limit = _draw_limit(sim)
+        specs = [H.gen_request(sim, last=False, allow_expect=False) for _ in range(sim.draw_int(0, 1, "nprefix"))]
+        data, bounds = H.stream_bytes(specs)
+        truth = [s.key() for s in specs]
+        follower = H.gen_request(sim, last=False, method=b"GET", target=b"/after", framing="none", oddities=False, allow_expect=False)
+        wire, key, zones, lb = _long_line_request(sim, limit)
+        bounds = bounds + [len(data) + b for b in lb]
+        data += wire + follower.wire
+        worst = max(zones, key=LINE_ZONES.index)
+        kind = "long-ext:%s:%s" % (limit_mode, worst)
+        for z in zones:
+            sim.probe("size_line_" + z)
+        if worst in ("edge", "over"):
+            either = (key, follower.key())
+        else:
+            truth = truth + [key, follower.key()]
     else:
         specs = [H.gen_request(sim, last=False, allow_expect=False) for _ in range(sim.draw_int(0, 2, "nprefix"))]
         data, bounds = H.stream_bytes(specs)
@@ -126,13 +287,19 @@ def run(sim):
             either = ((b"GET", b"/odd", b"HTTP/1.1", http1.header_map(hdrs), b""), follower.key())
             data += wire + follower.wire
         bounds = bounds + [len(data) - len(H.VICTIM)]
-    sim.config = {"family": family, "kind": kind, "after_close": after_close, "len": len(data), "ntruth": len(truth)}
+    if limit_mode is None:
+        limit_mode, limit = _draw_limit(sim, _longest_size_line(specs))
+    sim.probe("limit_" + limit_mode)
+    sim.config = {"family": family, "kind": kind, "after_close": after_close, "len": len(data), "ntruth": len(truth),
+                  "maxChunkSizeLineLength": limit}
     sim.event("stream", kind, len(data), data)
 
     # harness self-check: the generator's claim agrees with the RFC reference parser (AssertionError = harness error, never a violation)
     ref, st = http1.parse_requests(data)
     if family == "a" or kind == "c-vchar":
         assert st == "ok" and [m.key() for m in ref] == truth, (st, data)
+    elif family == "l":     # well-formed whatever the limit: a size limit is the server's, not the grammar's
+        assert st == "ok" and [m.key() for m in ref] == truth + (list(either) if either else []), (st, kind)
     elif must400:
         assert isinstance(st, tuple) and st[0] == "bad" and [m.key() for m in ref] == truth, (kind, st, data)
 
@@ -148,6 +315,7 @@ def run(sim):
             req.write(body)
             req.finish()
 
+    _set_limit(limit)       # before the channel exists; restored by run()'s finally and by cleanup()
     srv = H.Server(sim, app, timeout=60, knobs={"_optimisticEagerReadSize": eager})
     pieces = net.cut(sim, data, boundaries=bounds)
     queue = list(pieces)
@@ -233,7 +401,7 @@ def run(sim):
                   wit, detail)
 
     # 4. independent parser on well-formed streams
-    if family == "a":
+    if family == "a" or (family == "l" and either is None):
         h, hst = H.h11_requests(data)
         if hst == "ok":
             sim.probe("h11_agreed_streams")
@@ -280,6 +448,9 @@ MUTANTS = [
     'CAUGHT http.py _parseRequestLine: `c <= 32` -> `c <= 8` (TAB/CR/LF/VT accepted in the target) -> smuggled:c-ctl / rl-ctl-target',
     'CAUGHT http.py _parseRequestLine: drop the _istoken(method) check -> smuggled:rl-bad-method',
     'CAUGHT http_headers.py _NameEncoder.encode: `if not _istoken(bytes_name)` -> `if not bytes_name` -> smuggled:hn-nonascii / hn-last-invalid / hn-tab-before-colon / hn-delim / hn-space-inside / hn-space-before-colon',
+    "CAUGHT http.py _dataReceived_CHUNK_LENGTH: `eolIndex >= maxChunkSizeLineLength` -> `eolIndex >= 1024` (limit read from a constant, raised setting ignored) -> delivered-equals-truth:long-ext:raised:*:fewer, spurious-400",
+    "CAUGHT http.py _dataReceived_CHUNK_LENGTH: `self._start = len(self._buffer) - 1` -> `self._start = len(self._buffer)` (a CRLF split across two deliveries is missed; short lines suffice) -> delivered-equals-truth:*:fewer, no-400:chunk-*",
+    "CAUGHT http.py _dataReceived_CHUNK_LENGTH: `len(self._buffer) > maxChunkSizeLineLength` -> `len(self._buffer) > 1024` (partial-line bound ignores a raised setting) -> delivered-equals-truth:long-ext:raised:between:fewer / :under:fewer",
     "SURVIVED (equivalent) http.py _parseRequestLine: `c <= 32` -> `c < 32`: a SP in the target already makes line.split(b' ') yield 4 parts -> ValueError -> 400",
     'FIX-CHECK http.py _respondToBadRequestAndDisconnect + `self.dataReceived = self.lineReceived = self.rawDataReceived = lambda *args: None`: all after-close-delivery:* signatures disappear (3000 runs)',
     "FIX-CHECK http.py _maybeChooseTransferDecoder: remove the `elif data.lower() == b'identity': return True` branch: cl-and-te-identity-accepted disappears (3000 runs); NOTE upstream pins the accepting behaviour in test_http.ParsingTests.test_transferEncodingIdentity",
